@@ -163,3 +163,44 @@ func lenArith(c *core.Ctx, R, fnName string, endTopOK func(k int64) bool, endTop
 	}
 	c.Check(len(wrong) == 0, R, "Length:trim", c.P.Pos(trimIf.Pos()), "the final loop of Length drops exactly SP, TAB, LF, CR (256 bytes evaluated)", "Len() keeps trailing blanks or cuts into the value; bytes treated wrongly: "+strings.Join(wrong, " "))
 }
+
+// rewindRule: Len() and Check() of a JSON document leave a fresh scanner behind.
+func rewindRule(R string) RuleFunc {
+	return func(c *core.Ctx) {
+		c.Rule(R, "formats/json.Document: the two operations that drive the scanner to the end themselves (computeLen behind Len(), check behind Check()) call d.rewind() first and again in a defer, and rewind() installs a scanner made by the constructor newScanner (not a re-used one): so the lexeme stream read with NextLexeme() starts at the first lexeme whatever was called before, and no scanner state (pending lexemes, stack) survives from one operation into the next")
+		c.Floor(R, 3)
+		for _, fn := range []string{"(*formats/json.Document).computeLen", "(*formats/json.Document).check"} {
+			d := c.P.FindDecl(fn)
+			if d == nil {
+				c.Unresolved(R, fn)
+				continue
+			}
+			first, deferred := false, false
+			if len(d.Decl.Body.List) > 0 {
+				if es, ok := d.Decl.Body.List[0].(*ast.ExprStmt); ok && core.ExprStr(es.X) == "d.rewind()" {
+					first = true
+				}
+			}
+			for _, st := range d.Decl.Body.List {
+				if ds, ok := st.(*ast.DeferStmt); ok && core.ExprStr(ds.Call) == "d.rewind()" {
+					deferred = true
+				}
+			}
+			c.Check(first && deferred, R, fn, c.P.Pos(d.Decl.Pos()), fn+" rewinds before and after (deferred)", core.F("rewind at entry: %v, deferred rewind: %v - the document is left with an exhausted or half-read scanner, so a later NextLexeme()/Check()/Len() on the same object continues from there", first, deferred))
+		}
+		d := c.P.FindDecl("(*formats/json.Document).rewind")
+		if d == nil {
+			c.Unresolved(R, "(*formats/json.Document).rewind")
+			return
+		}
+		fresh := false
+		for _, st := range d.Decl.Body.List { // unconditional: a top-level statement of rewind
+			if as, ok := st.(*ast.AssignStmt); ok && len(as.Lhs) == 1 && core.ExprStr(as.Lhs[0]) == "d.scanner" {
+				if call, ok := as.Rhs[0].(*ast.CallExpr); ok && core.ExprStr(call.Fun) == "newScanner" {
+					fresh = true
+				}
+			}
+		}
+		c.Check(fresh, R, "(*formats/json.Document).rewind:fresh", c.P.Pos(d.Decl.Pos()), "rewind() installs newScanner(...)", "rewind re-uses a scanner object: whatever its reset forgets (pending lexemes, flags) leaks into the next operation")
+	}
+}
